@@ -287,29 +287,39 @@ class C13(Spec):
                      '-Wl,--wrap=pthread_join', '-Wl,--wrap=malloc', '-Wl,--wrap=calloc')
     harness_timeout = 90
     technique = ('Lean 4 proofs by induction over arbitrary schedules of a model of the thread bookkeeping (per-thread components reached only '
-                 'through current(Thread), holder machine for Mutex, join enabled after the epilogue); model tied to the code by replaying scripted '
+                 'through current(Thread) - except by the mark phase, which walks the thread-local table of every collector-managed Thread object it reaches, '
+                 'and by the sweep that frees such an object: both modelled; holder machine for Mutex, join enabled after the epilogue); model tied to the code by replaying scripted '
                  'interleavings on real Cello threads event by event, and by free-running 2-16 real threads under schedule noise with a direct oracle')
     level_text = ('Theorems over ALL schedules (any number of threads, any interleaving, any per-thread programs; a schedule is any list of (thread, event)): '
-                  'C13_noninterference / C13_schedule_independent - each thread\'s final component (collector registry, exception record, thread-local table, ledger of '
+                  'C13_noninterference / C13_schedule_independent (under the decidable hypothesis Isolated: no collection meets the collector-managed Thread object - var x = new(Thread, f) - '
+                  'of a thread that is running or has thread-local values, no sweep frees the Thread object of a live thread; C13_isolated_without_managed_threads / C13_noninterference_raw: '
+                  'unconditional when every struct Thread is raw; REFUTED without it, C13_noninterference_refuted = KF-C13-mark-foreign-tls: GC_Recurse -> Thread_Mark walks the table of any '
+                  'Thread object the mark phase meets) - each thread\'s final component (collector registry, exception record, thread-local table, ledger of '
                   'finalised objects) and every outcome of its local operations equal those of the thread running alone on its projection of the execution, whatever the '
                   'others do and whatever the shared class cache contains (C13_cache_transparent); C13_frame - a step of one thread changes no other thread\'s component; '
                   'C13_exn_isolated - an exception program of one thread yields the structured-exception trace of C07 and touches no other thread; C13_mutex / C13_with_exclusive - '
                   'at every point of every UB-free schedule at most one thread is inside sections of one Mutex (lock/unlock, trylock, with) and it is the holder; '
-                  'C13_counter_exact - non-atomic increments made inside sections are never lost; C13_join / C13_join_publishes - every step of a run of t precedes the return of '
-                  'join t and every later read (until the Thread object is called again) yields t\'s final published value (= its solo value); C13_teardown_own / C13_teardown_step / C13_foreign_del - a collector (del, '
+                  'C13_counter_exact - non-atomic increments made inside sections are never lost; C13_join / C13_join_partial / C13_join_publishes - every step of a run of t precedes the return of '
+                  'join t by another thread and every later read (until the Thread object is called again) yields t\'s final published value (= its solo value); C13_join_refuted = KF-C13-join-edeadlk: '
+                  'join(current(Thread)) returns at once (EDEADLK ignored, C13_join_edeadlk_ignored about the extracted table); C13_join_publishes_own_object - a result object the thread allocated is '
+                  'usable by the joiner iff the thread\'s collector had not finalised it; C13_join_publishes_object_refuted = KF-C13-join-result-finalised: the teardown finalises every object made with plain new; C13_teardown_own / C13_teardown_step / C13_foreign_del - a collector (del, '
                   'collection, the teardown in Thread_Init_Run) only ever finalises objects its own thread allocated; C13_teardown_survives_destructor_exceptions - with the epilogue '
                   'order of the current source (collector before exception record, read from the source on every run) no del, collection or thread teardown ever runs a destructor '
                   'without the thread\'s exception record (C13_teardown_old_order_refuted: the order before commit 7de4bbc crashes on a 4-event schedule). C13_source_shape_as_modelled and '
-                  'C13_error_translation_current_source re-check on every run that the 27 source fragments the model mirrors (Thread_Current, GC_Current, Exception_Current, '
-                  'Thread_Init_Run, GC_New/Del, alloc_by/del_by, start_in/stop_in/with, Mutex_*, Thread_Join, the cache macro) and the pthread error translation are the text '
+                  'C13_error_translation_current_source re-check on every run that the 31 source fragments the model mirrors (Thread_Current, GC_Current, Exception_Current, '
+                  'Thread_Init_Run, Thread_Mark and its instance, Thread_Del, Thread_Assign, the Mark dispatch of GC_Recurse, GC_New/Del, alloc_by/del_by, start_in/stop_in/with, Mutex_*, Thread_Join, the cache macro) and the pthread error translation are the text '
                   'the model was written against. The model is tied to /repo by executing scripted interleavings on real Cello threads (baton) comparing every event outcome, '
                   'and by free-running 2-16 real threads under schedule noise comparing all local outcomes plus digest-vs-solo, ledger, in-section, counter and join oracles.')
-    level_note = ('PARTIAL by nature: the theorems are about the bookkeeping (per-thread state is reached only through current(Thread); Mutex = holder machine; join after '
-                  'the epilogue) in a sequentially consistent model at operation granularity. Not exhibited by the model and covered only by running: real data races '
+    level_note = ('PARTIAL by nature: the theorems are about the bookkeeping (per-thread state is reached only through current(Thread) - frame, join and mutex theorems read back that '
+                  'shape of the model, which is tied to the code by the extracted source texts and the correspondence runs; Mutex = holder machine; join after '
+                  'the epilogue) in a sequentially consistent model at operation granularity. Three known findings, each with its full statement kept and refuted in the model: '
+                  'KF-C13-mark-foreign-tls, KF-C13-join-result-finalised, KF-C13-join-edeadlk. Not exhibited by the model and covered only by running: real data races (the walk of a foreign '
+                  'thread-local table is an atomic read in the model; `races` counts where it would be a race) '
                   'and memory-model effects, the pthread implementation, signals, the conservative stack scan (a collection is modelled with an arbitrary marked set). '
                   'Trusted: Lean kernel; harness/h_thr.c + lean/Driver/Thr.lean comparison (testing); pthread and libc.')
     rule = ('op files are schedules (tid, op): (a) scripted interleavings (mode sched) of 1-8 workers + main generated by simulating the lock/join machine, including '
-            'objects whose destructors do try/throw/catch, Thread objects that are called again after being joined, deliberately disabled events (blocked lock/join, unlock by a non-holder, ops of unborn/finished threads, reused serials, ill-formed lines), executed on real '
+            'objects whose destructors do try/throw/catch, Thread objects that are called again after being joined, Thread objects made the documented way by main (newthr: new(Thread, f) kept in a stack '
+            'variable; the maker\'s collections - explicit and the real threshold collections - then walk that worker\'s thread-local table, which in half of the cases holds up to 87 distinct keys and refers to the maker\'s objects), result objects handed to the joiner (pubo/rdo), deliberately disabled events (blocked lock/join, unlock by a non-holder, ops of unborn/finished threads, reused serials, ill-formed lines), executed on real '
             'Cello threads in exactly that order; every event outcome is compared with the model; (b) free-running schedules (mode free) of 2-16 real threads with yields/spins '
             'at op boundaries, in malloc/calloc and in the pthread calls: all local outcomes are compared with the model, synchronisation outcomes are masked; workloads '
             '(container-, allocation-, exception-, TLS-heavy) are compared with their solo digests. non-trivial = at least two threads ran and the case contains a contended '
@@ -321,7 +331,11 @@ class C13(Spec):
                    'thread-local keys of the user do not start with "__" (reserved: __GC, __Exception)',
                    'a Mutex is unlocked only by its holder and not relocked by its holder (undefined behaviour / deadlock of the default pthread mutex: modelled as ub / blocked, not executed)',
                    'a run of a thread is joined at most once (a joined Thread object may be called again); objects referenced from another thread\'s TLS are roots that are never deleted',
-                   'word-sized stores to the class cache are atomic (the cache stores only the declared instance)')
+                   'word-sized stores to the class cache are atomic (the cache stores only the declared instance)',
+                   'KF-C13-mark-foreign-tls: outside the baton (free-running cases) the thread that made a worker\'s Thread object with new(Thread, f) executes no operation that can collect between call and join of that worker (the driver\'s `races` count is checked to be 0 on every free-running case); only main makes such Thread objects; Thread objects are not stored as thread-local values',
+                   'KF-C13-join-result-finalised: result objects handed to the joiner (pubo) are roots that are never deleted',
+                   'KF-C13-join-edeadlk: no thread joins itself; mutual joins are not generated (glibc 2.36 deadlocks on them)',
+                   'arguments handed to a thread are raw objects (Thread_Call stores a raw copy of the tuple; nobody marks what it refers to)')
     def cases(self, rng, tier, boost=1):
         quick = tier == 'quick'
         cs = []
